@@ -508,6 +508,50 @@ func (eng *Engine) computeRefinements() {
 			}
 		}
 	}
+	// functype contracts declared for an alias (type F = func(...)): every function or closure of that signature
+	// that is used as a value must refine it
+	for key, con := range eng.specs.Contracts {
+		if con.Kind != "functype" {
+			continue
+		}
+		name := strings.TrimPrefix(key, "functype:")
+		i := strings.Index(name, ".")
+		if i < 0 {
+			continue
+		}
+		p := eng.pkgByName(name[:i])
+		if p == nil {
+			continue
+		}
+		o := p.Scope().Lookup(name[i+1:])
+		if o == nil {
+			continue
+		}
+		if _, isNamed := o.Type().(*types.Named); isNamed {
+			continue // named func types are handled through ChangeType above
+		}
+		sig, ok := o.Type().Underlying().(*types.Signature)
+		if !ok {
+			continue
+		}
+		for _, f := range eng.funcs {
+			if f.Blocks == nil || f.Signature.Recv() != nil || !types.Identical(f.Signature, sig) {
+				continue
+			}
+			usedAsValue := f.Parent() != nil
+			if !usedAsValue && f.Referrers() != nil {
+				for _, r := range *f.Referrers() {
+					if c, ok := r.(ssa.CallInstruction); ok && c.Common().Value == ssa.Value(f) {
+						continue
+					}
+					usedAsValue = true
+				}
+			}
+			if usedAsValue || f.Parent() == nil {
+				add(f, key)
+			}
+		}
+	}
 	// interface contracts
 	for key, con := range eng.specs.Contracts {
 		if con.Kind != "iface" {
